@@ -431,26 +431,66 @@ pub fn run_episode(ep: &Episode, pristine: &Pristine) -> EpisodeResult {
     let sim = Sim::new(n_tasks, &ep.sched);
     let oracle = Arc::new(Mutex::new(Oracle::new(pristine, ep.shared_builders.len())));
 
-    // --- setup phase: main thread, no scheduling, no faults -----------------
-    let mut shared = Shared { builders: Vec::new(), qrs: Vec::new() };
-    for s in &ep.shared_builders {
-        shared.builders.push((real_after(s, ep), model_after(s, ep)));
-    }
-    for (i, s) in ep.shared_qrs.iter().enumerate() {
-        let model = model_after(s, ep);
-        let b = real_after(s, ep);
-        let r = catch_unwind(AssertUnwindSafe(|| b.build()));
-        let (outcome, qr) = match r {
-            Ok(res) => (build_outcome(&res), res.ok()),
-            Err(p) => (classify_panic(p), None),
+    // --- setup phase: no scheduling, no faults ---------------------------------
+    // Runs on a helper thread under a watchdog: a tree under test that blocks forever here (a
+    // lock or an "in progress" mark left behind by a caller that died in an earlier episode)
+    // must end this worker as "hung", not stall the whole check.
+    let setup = {
+        let ep2 = ep.clone();
+        let oracle2 = oracle.clone();
+        let (tx, rx) = std::sync::mpsc::channel();
+        let h = std::thread::Builder::new()
+            .name("setup".into())
+            .stack_size(8 << 20)
+            .spawn(move || {
+                let ep = &ep2;
+                let mut shared = Shared { builders: Vec::new(), qrs: Vec::new() };
+                for s in &ep.shared_builders {
+                    shared.builders.push((real_after(s, ep), model_after(s, ep)));
+                }
+                for (i, s) in ep.shared_qrs.iter().enumerate() {
+                    let model = model_after(s, ep);
+                    let b = real_after(s, ep);
+                    let r = catch_unwind(AssertUnwindSafe(|| b.build()));
+                    let (outcome, qr) = match r {
+                        Ok(res) => (build_outcome(&res), res.ok()),
+                        Err(p) => (classify_panic(p), None),
+                    };
+                    oracle2.lock().unwrap().observe(&model.key(), &outcome, usize::MAX - 1, i, "SetupBuild", false);
+                    let qr = match (qr, &outcome) {
+                        (Some(q), Outcome::Ok(d)) => Some((Box::new(q), d.clone(), model.clone())),
+                        _ => None,
+                    };
+                    shared.qrs.push(qr);
+                }
+                let _ = tx.send(shared);
+            })
+            .expect("spawn setup thread");
+        match rx.recv_timeout(std::time::Duration::from_secs(STALL_SECS + 4)) {
+            Ok(sh) => {
+                let _ = h.join();
+                Some(sh)
+            }
+            Err(_) => None,
+        }
+    };
+    let Some(shared) = setup else {
+        let (decisions, trace_hash, sstats) = sim.snapshot();
+        let o = oracle.lock().unwrap();
+        return EpisodeResult {
+            index: ep.index,
+            violation: o.violation.clone(),
+            trace_hash,
+            outcome_hash: o.outcome_hash,
+            decisions,
+            sched: sstats,
+            oracle: o.stats.clone(),
+            n_tasks,
+            n_ops: ep.n_ops(),
+            policy: ep.sched.policy.name().to_string(),
+            hung: true,
         };
-        oracle.lock().unwrap().observe(&model.key(), &outcome, usize::MAX - 1, i, "SetupBuild", false);
-        let qr = match (qr, &outcome) {
-            (Some(q), Outcome::Ok(d)) => Some((Box::new(q), d.clone(), model.clone())),
-            _ => None,
-        };
-        shared.qrs.push(qr);
-    }
+    };
     let shared = Arc::new(shared);
     let ep_arc = Arc::new(ep.clone());
 
@@ -561,7 +601,10 @@ pub fn run_episode(ep: &Episode, pristine: &Pristine) -> EpisodeResult {
         };
         for (key, spec, in_run, origin) in picks {
             match evaluate_in_fresh_process(&spec) {
-                Ok(fresh) => {
+                Ok(None) => {
+                    oracle.lock().unwrap().stats.probe("ondemand_fresh_process_timed_out");
+                }
+                Ok(Some(fresh)) => {
                     let mut o = oracle.lock().unwrap();
                     o.stats.ondemand_pristine_comparisons += 1;
                     o.outcome_hash = fold(o.outcome_hash, digest128(&[key.as_bytes(), format!("{:?}", fresh).as_bytes()])[0]);
@@ -610,22 +653,47 @@ pub fn run_episode(ep: &Episode, pristine: &Pristine) -> EpisodeResult {
 /// How many on-demand pristine checks follow every episode (set once per process).
 pub static ONDEMAND: std::sync::atomic::AtomicU32 = std::sync::atomic::AtomicU32::new(1);
 
-fn evaluate_in_fresh_process(spec: &OneSpec) -> Result<Outcome, String> {
+/// `Ok(None)`: the fresh process did not answer within a minute (no comparison is made).
+fn evaluate_in_fresh_process(spec: &OneSpec) -> Result<Option<Outcome>, String> {
     let exe = std::env::current_exe().map_err(|e| e.to_string())?;
     let arg = serde_json::to_string(spec).map_err(|e| e.to_string())?;
-    let out = std::process::Command::new(exe)
+    let mut child = std::process::Command::new(exe)
         .arg("c14-one")
         .arg(arg)
         .stdin(std::process::Stdio::null())
-        .output()
+        .stdout(std::process::Stdio::piped())
+        .stderr(std::process::Stdio::null())
+        .spawn()
         .map_err(|e| e.to_string())?;
-    if !out.status.success() {
-        return Err(format!("c14-one exited with {:?}: {}", out.status, String::from_utf8_lossy(&out.stderr)));
+    // the answer is one short line: reading it to the end cannot block on a full pipe
+    let mut text = String::new();
+    let t0 = std::time::Instant::now();
+    loop {
+        match child.try_wait() {
+            Ok(Some(st)) => {
+                use std::io::Read;
+                if let Some(mut o) = child.stdout.take() {
+                    let _ = o.read_to_string(&mut text);
+                }
+                if !st.success() {
+                    return Err(format!("c14-one exited with {:?}", st));
+                }
+                break;
+            }
+            Ok(None) => {
+                if t0.elapsed().as_secs() >= 60 {
+                    let _ = child.kill();
+                    let _ = child.wait();
+                    return Ok(None);
+                }
+                std::thread::sleep(std::time::Duration::from_micros(200));
+            }
+            Err(e) => return Err(e.to_string()),
+        }
     }
-    let text = String::from_utf8_lossy(&out.stdout);
     let line = text.lines().rev().find(|l| l.starts_with('{')).ok_or("c14-one printed nothing")?;
     let v: serde_json::Value = serde_json::from_str(line).map_err(|e| e.to_string())?;
-    serde_json::from_value(v["outcome"].clone()).map_err(|e| e.to_string())
+    serde_json::from_value::<Outcome>(v["outcome"].clone()).map(Some).map_err(|e| e.to_string())
 }
 
 /// `fqsim c14-one <OneSpec json>`: the fresh process of an on-demand pristine check.
